@@ -133,37 +133,6 @@ Definition expected_placeholder_functions : fn_table := [
   ("newRefPlaceholder", false, ["call:refTo"])
 ].
 
-(* the reflector and the codec reach the cache only through SchemaCache.Schema and
-   keep no other mutable state: no assignment to a receiver field in any method *)
-Definition only_calls (tab : fn_table) : bool :=
-  forallb (fun f => forallb (fun t => match callee t with Some _ => true | None => false end) (snd f)) tab.
-
+(* the functions of internal/codec that obtain the root schema through the reflector *)
 Definition expected_codec_entry_points : list string :=
   ["decoder.go:decode"; "encoder.go:encode"; "query.go:decodeQuery"].
-
-(* no state outside the cache on the encode/decode path: the structs hold only the pointer
-   chain Codec -> Reflector -> SchemaCache and immutable options; package-level variables
-   are the package-level default codec, an error value and read-only tables; nothing
-   assigns to any of them after initialisation *)
-Definition expected_reflector_fields : list string := ["schemaSet:*j5schema.SchemaCache"].
-Definition expected_codec_fields : list string :=
-  ["refl:*j5reflect.Reflector"; "resolver:MessageTypeResolver"; "addProtoToAny:bool"].
-Definition expected_cache_fields : list string := ["mu:sync.Mutex"; "packages:map"; "registered:slice"].
-Definition expected_codec_pkg_vars : list string := ["Global:call:NewCodec"; "errInvalidUTF8:call:errors.New"].
-Definition expected_reflect_pkg_vars : list string := [].
-Definition expected_schema_pkg_vars : list string := ["floatKinds:map"; "intKinds:map"; "wellKnownStringPatterns:map"].
-
-(* every function of lib/j5schema that writes a schema map or a To field: the methods of
-   *SchemaCache (under the lock), the three placeholder sites of the on-demand builder
-   (called with the lock held), and the builders of private SchemaSets (SchemaSetFromFiles,
-   messageSchema, the SchemaSet methods, buildSchemas of schema_from_desc.go), which never
-   see a SchemaCache *)
-Definition expected_schema_writers : list string := [
-  "schema_cache.go:Schema:delete:Schemas"; "schema_cache.go:refTo:write:Schemas";
-  "schema_cache.go:referencePackage:write:packages"; "schema_cache.go:schemaLocked:write:Schemas";
-  "schema_cache.go:schemaLocked:write:To";
-  "schema_from_desc.go:buildSchemas:write:Schemas"; "schema_from_desc.go:buildSchemas:write:To";
-  "schema_from_proto.go:SchemaSetFromFiles:write:To"; "schema_from_proto.go:buildEnumFieldSchema:write:To";
-  "schema_from_proto.go:buildMessageFieldSchema:write:To"; "schema_from_proto.go:messageProperties:write:To";
-  "schema_from_proto.go:messageSchema:write:Schemas"; "schema_from_proto.go:messageSchema:write:To";
-  "schema_set.go:refTo:write:Schemas"; "schema_set.go:referencePackage:write:Packages"].
